@@ -9,7 +9,7 @@ from src.ir import type_utils as tu
 
 
 def pool(T, case):
-    return [T.decl[n] for n in case["order"]] + [T.builtin(n) for n in ("Number", "Int", "String")]
+    return [T.decl[n] for n in case["order"]] + [T.builtin(n) for n in ("Any", "Number", "Int", "String")]
 
 
 def run(case, lang, seed, max_leaves):
